@@ -655,6 +655,27 @@ func gen(r *vlib.R, n int, tier string, emit func(string)) {
 			emit(fmt.Sprintf("rl step proto=%s ck=%s%s", vlib.Pick(r, []string{"udp", "udp", "tcp"}), ck, extra))
 		}
 	}
+	// ancestor walks (cut / failure-zone / witness lookups): every depth, the root, long labels
+	emit("sx new")
+	for i := 0; i < 40+n/500; i++ {
+		depth := r.Intn(6)
+		if r.Chance(1, 8) {
+			depth = 6 + r.Intn(20)
+		}
+		var ls []string
+		for j := 0; j < depth; j++ {
+			l := vlib.Pick(r, []string{"a", "www", "Example", "x-1", "zt", strings.Repeat("l", 63), "arpa", "10"})
+			ls = append(ls, mixCase(r, l))
+		}
+		name := strings.Join(ls, ".") + "."
+		if depth == 0 {
+			name = "."
+		}
+		if len(name) > 250 {
+			continue
+		}
+		emit("sx walk name=" + name)
+	}
 	// the cache-contained alias chase: chains of 1-11 cached hops with every way a hop can be unusable
 	emit("ch new")
 	for c := 0; c < n/60+20; c++ {
@@ -753,6 +774,14 @@ func gen(r *vlib.R, n int, tier string, emit func(string)) {
 					}
 				}
 			}
+		}
+	}
+	// denial zones at the root and at a TLD (a root proof stays for the life of an instance: each gets its own)
+	for _, zd := range []int{0, 1, 0, 1} {
+		for _, fail := range []string{"q", "-"} {
+			emit("lad new r8198=1")
+			emit(fmt.Sprintf("lad run ex=0 cut=0 fail=%s cd=%d do=%d small=0 den=1 zd=%d nm=%s", fail, 0, r.Intn(2), zd, uniq(r, &k)))
+			budget--
 		}
 	}
 	// header word of every wire builder x request flag bits x poisoned slab
